@@ -9,6 +9,7 @@ open Base
 open Teletype
 open XmlLex
 open XmlTree
+open NsTable
 
 type sx = A of string | L of sx list
 
@@ -132,6 +133,18 @@ let dispatch (f : string) (args : sx list) : sx =
   | "canon", [t] -> sx_of_node (Inst.i_canon (node_of_sx t))
   | "xml_parse", [s] -> sx_of_opt sx_of_node (Inst.i_xml_parse (str_of_sx s))
   | "xml_lex", [s] -> sx_of_opt (fun l -> L (SL.map sx_of_tok l)) (Inst.i_lex (str_of_sx s))
+  | "ns_run", [d; n; L ops] ->
+      let st0 = { nd = env_of_sx d; nsp = env_of_sx n } in
+      let st = SL.fold_left (fun st o ->
+        match o with
+        | L [A "P"; ns] -> NsTable.ns_step st (OpPrefix (str_of_sx ns))
+        | L [A "S"; a] -> NsTable.ns_step st (OpSavePrefix (str_of_sx a))
+        | _ -> failwith "nsop") st0 ops in
+      let tab t = L (SL.map (fun (a, b) -> L [sx_of_str a; sx_of_str b]) t) in
+      L [tab st.nd; tab st.nsp]
+  | "ns_prefix", [d; n; ns] ->
+      let st0 = { nd = env_of_sx d; nsp = env_of_sx n } in
+      sx_of_str (snd (NsTable.get_nsprefix st0 (str_of_sx ns)))
   | _ -> failwith ("unknown function " ^ f)
 
 let () =
